@@ -31,14 +31,15 @@ META = {
 }
 
 from engine import bytesrc, steploop
+from engine import tlc as _tlc
 from engine.core import MachineryError, digest
 
 DISC, OK, CANCELLED, ERR = 0, -2, -3, -9
 
 
-def ev(e, m=-1, op='', r=-1, t='', p=-1, o=-1):
+def ev(e, m=-1, op='', r=-1, t='', p=-1, o=-1, b=0):
     """one uniform record per boundary event, so TLC can read every field of every event"""
-    return {'e': e, 'm': m, 'op': op, 'r': r, 't': t, 'p': p, 'o': o}
+    return {'e': e, 'm': m, 'op': op, 'r': r, 't': t, 'p': p, 'o': o, 'b': b}
 
 
 _APPS = {}
@@ -67,33 +68,55 @@ def _label(event):
 
 class _Run:
     """One case on the stepped loop: a scripted responder behind falcon.asgi.App, a fake server,
-    and a controller that applies the stimuli in order."""
+    and a controller that applies the stimuli in order.
+
+    style 'inline' / 'sub'   one application task makes all calls in script order (a receive as a plain await,
+                             or as a sub-task the way asyncio.wait_for / wait(FIRST_COMPLETED) users do)
+    style 'dual'             two application tasks share the connection: a reader task makes the receive
+                             calls, a writer task the send/close calls, so a receive can be pending while the
+                             other task sends or closes
+    stimuli  D  next client event becomes available      F  the server's receive() starts raising
+             A  permit the next call (dual: of the reader)    B  permit the next call (dual: of the writer)
+             C  cancel the pending receive    S  one loop pass    Q  run until quiescent"""
 
     def __init__(self, case):
         self.case = case
         self.log = []
-        self.ops = list(case['ops'])
-        self.inflight = None
+        self.dual = case['style'] == 'dual'
+        ops = list(case['ops'])
+        if self.dual:
+            self.lanes = {'r': [o for o in ops if o == 'recv'], 'w': [o for o in ops if o != 'recv']}
+        else:
+            self.lanes = {'r': ops, 'w': []}
+        self.inflight = {'r': None, 'w': None}
+        self.returned = {'r': 0, 'w': 0}
         self.optask = None
+        self.lane_tasks = []
         self.app_task = None
         self.ctl_task = None
         self.cancel_pending = False
         self.errors = []
-        self.stim_done = 0
         self.pulls_at = []
         self.end = {}
         self.finished = False
+        self.closed_ret = False
+        self.faulted = False
+        self.busy = False
         self.n_end = 0
         self.app_done = False
 
     # ---- application side -------------------------------------------------------------------
     def _known(self):
-        return [self.app_task, self.optask, self.ctl_task]
+        return [self.app_task, self.optask, self.ctl_task] + self.lane_tasks
 
-    async def _op(self, ws, op):
+    def _recv_pending(self):
+        return 'recv' in (self.inflight['r'], self.inflight['w'])
+
+    async def _op(self, ws, op, lane):
         from falcon.errors import WebSocketDisconnected
         self.log.append({'e': 'AppCall', 'op': op})
-        self.inflight = op
+        self.inflight[lane] = op
+        xname = ''
         try:
             if op == 'recv':
                 r = int(await ws.receive_text())
@@ -106,44 +129,85 @@ class _Run:
         except WebSocketDisconnected:
             r = DISC
         except asyncio.CancelledError:
-            if not self.cancel_pending:
+            if not self.cancel_pending or op != 'recv':
                 raise
             self.cancel_pending = False
             t = asyncio.current_task()
-            if self.case['style'] == 'inline' and hasattr(t, 'uncancel'):
+            if self.case['style'] != 'sub' and hasattr(t, 'uncancel'):
                 t.uncancel()
             r = CANCELLED
         except Exception as ex:  # anything else escaping falcon is an internal error
             self.errors.append('%s raised %r' % (op, ex))
             r = ERR
-        self.inflight = None
-        self.log.append({'e': 'AppRet', 'op': op, 'r': r, 'p': len(steploop.pending_tasks(self._known()))})
+            xname = type(ex).__name__
+        self.inflight[lane] = None
+        self.returned[lane] += 1
+        if op == 'close':
+            self.closed_ret = True
+        self.log.append({'e': 'AppRet', 'op': op, 'r': r, 'p': len(steploop.pending_tasks(self._known())), 'x': xname})
 
-    async def responder(self, ws):
-        await ws.accept()
-        for i, op in enumerate(self.ops):
-            await self.gates.gate(i)
-            if self.finished:
+    async def _lane(self, ws, lane):
+        for i, op in enumerate(self.lanes[lane]):
+            await self.gates[lane].gate(i)
+            # no call is started after close() has returned (C17's business) or after the script is over
+            if self.finished or self.closed_ret:
                 break
             if self.case['style'] == 'sub':
-                self.optask = asyncio.ensure_future(self._op(ws, op))
+                self.optask = asyncio.ensure_future(self._op(ws, op, lane))
                 await self.optask
                 self.optask = None
             else:
-                await self._op(ws, op)
+                await self._op(ws, op, lane)
+
+    async def responder(self, ws):
+        await ws.accept()
+        if self.dual:
+            self.lane_tasks = [asyncio.ensure_future(self._lane(ws, 'r')), asyncio.ensure_future(self._lane(ws, 'w'))]
+            await asyncio.gather(*self.lane_tasks)
+        else:
+            await self._lane(ws, 'r')
         if not self.finished:
             await self.final_gate      # park: the framework must not close before the script is over
 
     # ---- controller --------------------------------------------------------------------------
     def _cancel(self):
-        if self.inflight != 'recv' or self.cancel_pending:
+        if not self._recv_pending() or self.cancel_pending:
             return
-        t = self.optask if self.case['style'] == 'sub' else self.app_task
+        t = self.optask if self.case['style'] == 'sub' else self.lane_tasks[0] if self.dual else self.app_task
         if t is None or t.done():
             return
         self.cancel_pending = True
         self.log.append({'e': 'Cancel'})
         t.cancel()
+
+    def _permit(self, lane):
+        """open the next gate of a lane.  After a server fault no further send/close is started (what they do
+        then is out of scope), so the lane stops at the first such call."""
+        g = self.gates[lane]
+        if g.opened >= len(self.lanes[lane]):
+            return
+        if self.faulted and self.lanes[lane][g.opened] != 'recv':
+            return
+        g.open_next()
+
+    def _fault(self):
+        """the server's receive() starts raising - only while no send/close is permitted-but-unfinished
+        (close() awaiting a pump that failed is outside the model) and only with a pump (capacity > 0)"""
+        if self.case['mq'] == 0 or self.faulted:
+            return
+        for lane in ('r', 'w'):
+            g = self.gates[lane]
+            unfinished = self.lanes[lane][self.returned[lane]:g.opened]
+            if any(o != 'recv' for o in unfinished):
+                return
+        self.faulted = True
+        self.server.fail()
+
+    async def _settle(self):
+        try:
+            await steploop.settle(lambda: len(self.log), limit=3000)
+        except RuntimeError:
+            self.busy = True          # something keeps polling: an observation for the judge, not an error
 
     async def main(self):
         case = self.case
@@ -153,12 +217,12 @@ class _Run:
         if case['disc']:
             client.append({'type': 'websocket.disconnect', 'code': 1001})
         self.server = srv = steploop.WsServer(self.log, client, _label, case['recv_mode'], case['send_mode'])
-        self.gates = steploop.Gates(len(self.ops))
+        self.gates = {k: steploop.Gates(len(v)) for k, v in self.lanes.items()}
         self.final_gate = loop.create_future()
         scope = steploop.ws_scope('/', extra={'verif.run': self})
         self.app_task = asyncio.ensure_future(_app(case['mq'])(scope, srv.receive, srv.send))
         # handshake: run until the accept went out and everything started by it has settled
-        await steploop.settle(lambda: len(self.log), limit=20000)
+        await self._settle()
         if not any(e['e'] == 'SrvSend' and e['t'] == 'accept' for e in self.log):
             raise MachineryError('handshake did not complete: %r' % (self.log,))
         for s in case['stim']:
@@ -166,39 +230,42 @@ class _Run:
             if s == 'D':
                 srv.arrive()
             elif s == 'A':
-                self.gates.open_next()     # permission: the call starts as soon as the previous one returned
+                self._permit('r')          # permission: the call starts as soon as the previous one returned
+            elif s == 'B':
+                self._permit('w' if self.dual else 'r')
             elif s == 'C':
                 self._cancel()
+            elif s == 'F':
+                self._fault()
             elif s == 'S':
                 await asyncio.sleep(0)
             elif s == 'Q':
-                await steploop.settle(lambda: len(self.log), limit=20000)
+                await self._settle()
             else:
                 raise MachineryError('unknown stimulus %r' % (s,))
-            self.stim_done += 1
-        await steploop.settle(lambda: len(self.log), limit=20000)
-        self.log.append({'e': 'End', 'p': len(steploop.pending_tasks([self.app_task, self.optask])),
-                         'o': srv.outstanding})
+        await self._settle()
+        self.log.append({'e': 'End', 'p': len(steploop.pending_tasks(self._known())),
+                         'o': srv.outstanding, 'b': 1 if self.busy else 0})
         self.n_end = len(self.log)
-        self.end = {'pulls': srv.calls, 'waiting': self.inflight == 'recv', 'outstanding': srv.outstanding > 0,
+        self.end = {'pulls': srv.calls, 'waiting': self._recv_pending(), 'outstanding': srv.outstanding > 0,
                     'stray': self.log[-1]['p']}
         # wind down: a call still waiting (a receive nothing will ever satisfy) is cancelled through the same
-        # path, the remaining gates are opened (the responder skips the calls), the responder returns and the
+        # path, the remaining gates are opened (the lanes skip the calls), the responder returns and the
         # framework closes the connection itself
         self.finished = True
-        if self.inflight is not None:
+        if self._recv_pending():
             self._cancel()
-            await steploop.settle(lambda: len(self.log), limit=20000)
-        self.gates.open_all()
+            await self._settle()
+        for g in self.gates.values():
+            g.open_all()
         self.final_gate.set_result(None)
-        await steploop.settle(lambda: len(self.log), limit=20000)
+        await self._settle()
         self.app_done = self.app_task.done()
         self.log.append({'e': 'Final', 'p': len(steploop.pending_tasks([])), 'o': srv.outstanding})
         if not self.app_task.done():
             self.app_task.cancel()
-        else:
-            if not self.app_task.cancelled() and self.app_task.exception() is not None:
-                self.errors.append('app call raised %r' % (self.app_task.exception(),))
+        elif not self.app_task.cancelled() and self.app_task.exception() is not None and not self.faulted:
+            self.errors.append('app call raised %r' % (self.app_task.exception(),))
 
 
 def run_case(stepper, case):
@@ -212,43 +279,52 @@ def run_case(stepper, case):
     evs = evs[1:]
     trace = {'mq': case['mq'], 'all': list(range(1, case['nmsg'] + 1)) + ([DISC] if case['disc'] else []),
              'ev': [ev(e['e'], m=e.get('m', -1), op=e.get('op', ''), r=e.get('r', -1),
-                       t=e.get('t', ''), p=e.get('p', -1), o=e.get('o', -1)) for e in evs]}
+                       t=e.get('t', ''), p=e.get('p', -1), o=e.get('o', -1), b=e.get('b', 0)) for e in evs]}
     # non-triviality (DESIGN 2.6): a server arrival between an application call and its return
-    open_call, racy = False, False
+    open_calls, racy, overlap = 0, False, False
     for e in evs:
         if e['e'] == 'AppCall':
-            open_call = True
+            open_calls += 1
+            overlap = overlap or open_calls > 1
         elif e['e'] == 'AppRet':
-            open_call = False
-        elif e['e'] == 'Arrive' and open_call:
+            open_calls -= 1
+        elif e['e'] == 'Arrive' and open_calls:
             racy = True
-    info = {'racy': racy, 'errors': run.errors, 'leftover': stepper.leftover, 'app_done': run.app_done,
-            'results': [(e['op'], e['r']) for e in evs if e['e'] == 'AppRet'],
+    info = {'racy': racy, 'overlap': overlap, 'errors': run.errors, 'leftover': stepper.leftover,
+            'app_done': run.app_done, 'faulted': run.faulted, 'busy': run.busy,
+            'raised': {str(i): e['x'] for i, e in enumerate(evs) if e.get('x')},
             'pulls_at': run.pulls_at, 'end': run.end, 'tail': run.log[run.n_end:-1],
             'tokens': [(e['e'], e.get('op', ''), e.get('r', -1)) for e in evs
-                       if e['e'] in ('Arrive', 'AppCall', 'AppRet', 'Cancel')]}
+                       if e['e'] in ('Arrive', 'AppCall', 'AppRet', 'Cancel', 'SrvRecvFail')]}
     return trace, info
 
 
 def random_case(rng, capacities=(0, 1, 1, 2, 2, 3, 4), max_msgs=8, max_ops=10, max_stim=40):
     """A seeded stimulus script beyond the exhaustive bounds.  The mix of stimuli is itself drawn
-    per case (bursty servers, slow consumers, many single passes ...)."""
+    per case (bursty servers, slow consumers, many single passes, a second task closing or sending
+    under a pending receive, a failing server ...)."""
     mq = rng.choice(capacities)
     nmsg = rng.randint(0, max_msgs)
+    style = rng.choice(('inline', 'sub', 'dual', 'dual'))
+    fault = mq > 0 and rng.random() < 0.12
     ops = []
-    wr, ws, wc = rng.choice(((6, 2, 1), (3, 3, 1), (8, 1, 0), (2, 5, 1)))
+    wr, ws, wc = rng.choice(((6, 2, 1), (3, 3, 1), (8, 1, 0), (2, 5, 1), (4, 1, 2)))
     for _ in range(rng.randint(0, max_ops)):
         op = rng.choice(['recv'] * wr + ['send'] * ws + ['close'] * wc)
         ops.append(op)
         if op == 'close':
-            break                      # scripts end at close (see META level_note)
-    wd, wa, wp, wq, wx = rng.choice(((3, 3, 4, 1, 1), (5, 2, 2, 0, 1), (2, 5, 2, 1, 1), (2, 2, 8, 0, 1),
-                                     (3, 3, 1, 3, 2)))
-    alphabet = 'D' * wd + 'A' * wa + 'S' * wp + 'Q' * wq + 'C' * wx
+            if style != 'dual':
+                break                  # one task: the script ends at close (see META level_note)
+            wc = 0                     # two tasks: close is the writer's last call, the reader may still be pending
+    wd, wa, wb, wp, wq, wx = rng.choice(((3, 3, 2, 4, 1, 1), (5, 2, 1, 2, 0, 1), (2, 5, 2, 2, 1, 1), (2, 2, 2, 8, 0, 1),
+                                         (3, 3, 2, 1, 3, 2), (1, 4, 3, 3, 1, 0)))
+    alphabet = 'D' * wd + 'A' * wa + 'B' * wb + 'S' * wp + 'Q' * wq + 'C' * wx
     stim = [rng.choice(alphabet) for _ in range(rng.randint(2, max_stim))]
+    if fault:
+        stim.insert(rng.randrange(len(stim) + 1), 'F')
     return {'mq': mq, 'nmsg': nmsg, 'disc': rng.random() < 0.6, 'ops': ops, 'stim': stim,
             'recv_mode': rng.choice(('immediate', 'suspend')), 'send_mode': rng.choice(('immediate', 'suspend')),
-            'style': rng.choice(('inline', 'sub'))}
+            'style': style}
 
 
 # ---------------------------------------------------------------------------------------------
@@ -266,9 +342,11 @@ def case_from_quiescent(b, variant):
     for e in b['h']:
         if e['e'] == 'D':
             stim += ['D', 'Q']
+        elif e['e'] == 'F':
+            stim += ['F', 'Q']
         elif e['e'] == 'A':
             ops.append(e['op'])
-            stim += ['A', 'Q']
+            stim += ['A' if e['op'] == 'recv' else 'B', 'Q']
         elif e['e'] == 'C':
             stim += ['C', 'Q']
     c = {'mq': b['mq'], 'ops': ops, 'stim': stim}
@@ -277,13 +355,26 @@ def case_from_quiescent(b, variant):
     return c
 
 
+def overlapping(b):
+    """does the behaviour start a call while another one has not returned (needs two tasks)?"""
+    n = 0
+    for e in b['h']:
+        if e['e'] == 'A':
+            n += 1
+            if n > 1:
+                return True
+        elif e['e'] == 'R':
+            n -= 1
+    return False
+
+
 def case_from_tokens(b, variant):
-    """leg A2: a fine-grained behaviour projected to stimulus tokens (D, r/s/c, C, S)."""
+    """leg A2: a fine-grained behaviour projected to stimulus tokens (D, F, r / s / c, C, S)."""
     ops, stim = [], []
     for t in b['h']:
         if t in 'rsc':
             ops.append({'r': 'recv', 's': 'send', 'c': 'close'}[t])
-            stim.append('A')
+            stim.append('A' if t == 'r' else 'B')
         else:
             stim.append(t)
     c = {'mq': b['mq'], 'ops': ops, 'stim': stim}
@@ -293,18 +384,29 @@ def case_from_tokens(b, variant):
 
 
 VARIANTS = [{'recv_mode': r, 'send_mode': s, 'style': y}
-            for r in ('immediate', 'suspend') for s in ('immediate', 'suspend') for y in ('inline', 'sub')]
-X_ACTIONS = ['XSrvArrive', 'XPumpLoop', 'XPumpGot', 'XPumpCheck', 'XPumpWake', 'XPumpCancelled', 'XAppRecv',
+            for r in ('immediate', 'suspend') for s in ('immediate', 'suspend') for y in ('inline', 'sub', 'dual')]
+DUAL_VARIANTS = [v for v in VARIANTS if v['style'] == 'dual']
+X_ACTIONS = ['XSrvArrive', 'XSrvFail', 'XPumpLoop', 'XPumpGot', 'XPumpCheck', 'XPumpWake', 'XPumpCancelled', 'XAppRecv',
              'XRecvLoop', 'XRecvWake', 'XRecvRawRet', 'XCancelRecv', 'XAppSend', 'XSendRet', 'XAppClose',
              'XCloseSent', 'XCloseFinish']
 
 
-def _signature(clause, case, trace, at):
-    """narrow structural description of a failing history: the clause, buffered or not, and the
-    application calls / cancellations up to the failing event"""
-    calls = [e['op'] if e['e'] == 'AppCall' else 'cancel' for e in trace['ev'][:max(at, 0) + 1]
-             if e['e'] in ('AppCall', 'Cancel')]
-    return {'clause': clause, 'buffered': case['mq'] > 0, 'calls_tail': calls[-2:]}
+def _signature(clause, case, trace, at, raised=None):
+    """narrow structural description of a failing history: the clause, buffered or not, whether a close() of the
+    other task was in progress at the failing event, the class of an exception that escaped, and (one task only)
+    the application calls / cancellations up to the failing event"""
+    upto = trace['ev'][:max(at, 0) + 1]
+    calls = [e['op'] if e['e'] == 'AppCall' else 'cancel' for e in upto if e['e'] in ('AppCall', 'Cancel')]
+    closing = any(e['e'] == 'AppCall' and e['op'] == 'close' for e in upto) and \
+        not any(e['e'] == 'AppRet' and e['op'] == 'close' for e in upto[:-1])
+    sig = {'clause': clause, 'buffered': case['mq'] > 0}
+    if closing and case['style'] == 'dual':
+        sig['during_close'] = True
+    else:
+        sig['calls_tail'] = calls[-2:]
+    if raised and str(at) in raised:
+        sig['error'] = raised[str(at)]
+    return sig
 
 
 def run(ctx):
@@ -314,11 +416,14 @@ def run(ctx):
     ctx.trusted_base = ['TLC 1.8', 'asyncio FIFO ready queue (CPython)', 'fake ASGI WebSocket server engine/steploop.py']
     ctx.assumptions = ['"held" = enqueued; the pump may hold one more event in hand (PumpHoldsOneInHand), so the server '
                        'sees at most capacity + 1 receive() calls beyond what the application consumed',
-                       'one application task uses the connection (receive() is documented as not re-entrant)',
-                       'scripts end at close(); calls after the application closed the socket are C17',
+                       'the application is a reader task (receive calls, never two at once: receive() is documented as '
+                       'not re-entrant) and a writer task (send/close); one task doing everything is the special case',
+                       'no call is started after close() has returned (C17); a receive already pending then is in scope',
+                       'what send()/close() do after the server receive() failed is out of scope (close() re-raises the '
+                       'pump failure on /repo); a pending or later receive must still be released',
                        'after a sender was told of the disconnect the socket is closed: later receives raise '
                        'WebSocketDisconnected even if messages are still queued (modelled as specified behaviour)',
-                       'the server does not raise from send()/receive()']
+                       'the server does not raise from send(); its receive() raises only where a script injects it']
     import falcon.asgi  # noqa: F401  (after srcimport)
     stepper = steploop.Stepper()
     seen = {}                       # trace digest -> (trace, case)
@@ -343,7 +448,7 @@ def run(ctx):
             ctx.violation('P:exception', {'case': case, 'trace': trace}, 'exception escaped: %s' % info['errors'],
                           signature={'clause': 'P:exception', 'buffered': case['mq'] > 0})
         if judge and key not in seen:
-            seen[key] = (trace, case)
+            seen[key] = (trace, case, info['raised'])
         return trace, info
 
     # ---- leg M: the design ---------------------------------------------------------------------
@@ -360,33 +465,61 @@ def run(ctx):
         rv = ctx.tlc('MC_WsBuffer', cfg, workers=4, timeout=240, must_hold=False, count=False)
         if rv.violated != inv:
             raise MachineryError('vacuous model: %s does not violate %s (got %r)' % (cfg, inv, rv.violated))
+    try:                      # a liveness witness: TLC reports the violated temporal property as an error
+        ctx.tlc('MC_WsBuffer', 'MC_WsBufferNoRelease.cfg', workers=4, timeout=240, must_hold=False, count=False)
+        raise MachineryError('vacuous model: MC_WsBufferNoRelease.cfg does not violate PendingReleased')
+    except _tlc.TLCError as ex:
+        if 'Temporal property PendingReleased was violated' not in str(ex) and 'Temporal properties were violated' not in str(ex):
+            raise
+    # reachability: the situations the two-task model exists for really occur in it
+    for cfg, inv in (('MC_WsBufferReach.cfg', 'ReleasedByClose'), ('MC_WsBufferReachF.cfg', 'ReleasedByFault')):
+        rv = ctx.tlc('MC_WsBuffer', cfg, workers=4, timeout=240, must_hold=False, count=False)
+        if rv.violated != inv:
+            raise MachineryError('%s: a receive pending while the pump ends is not reachable (got %r)' % (cfg, rv.violated))
     ctx.extra['wrong_design_switches'] = {'GeCmp=FALSE': 'violates Bounded', 'AwaitStop=FALSE': 'violates NothingLeftRunning',
-                                          'NotifyPop=FALSE': 'violates NoLostWake'}
+                                          'NotifyPop=FALSE': 'violates NoLostWake',
+                                          'ReleaseOnEnd=FALSE': 'violates PendingReleased (liveness)'}
     ctx.progress('leg M vacuity witnesses ok')
 
     # ---- leg A1: run-to-quiescence behaviours, results compared exactly ----------------------------
     ra = ctx.tlc('MC_WsBuffer', ctx.pick('MC_WsBufferA1Q.cfg', 'MC_WsBufferA1T.cfg'), workers=4, timeout=600, count=False)
     behaviours = list({digest(b): b for b in ra.json}.values())
-    behaviours.sort(key=digest)
-    judge_every = max(1, len(behaviours) // ctx.pick(1500, 12000))
+    del ra
+    # one stimulus script may have two outcomes in the specification: when close() of the writer task releases
+    # a pending receive of the reader task, the order of the two returns is not determined
+    scripts = {}
+    for b in behaviours:
+        key = digest([b['mq'], b['all'], [(e['e'], e['op']) for e in b['h'] if e['e'] != 'R']])
+        scripts.setdefault(key, []).append(b)
+    keys = sorted(scripts)
+    judge_every = max(1, len(keys) // ctx.pick(1500, 12000))
     held_more = 0
-    for i, b in enumerate(behaviours):
-        for variant in ctx.rng.sample(VARIANTS, ctx.pick(1, 2)):
-            case = case_from_quiescent(b, variant)
+    TOK = {'D': 'Arrive', 'C': 'Cancel', 'F': 'SrvRecvFail', 'A': 'AppCall', 'R': 'AppRet'}
+
+    def tokens_of(b):
+        return [(TOK[e['e']], e['op'] if e['e'] in 'AR' else '', e['r'] if e['e'] == 'R' else -1) for e in b['h']]
+
+    for i, key in enumerate(keys):
+        outcomes = scripts[key]
+        b0 = outcomes[0]
+        pool = DUAL_VARIANTS if overlapping(b0) else VARIANTS
+        for variant in ctx.rng.sample(pool, ctx.pick(1, 1)):
+            case = case_from_quiescent(b0, variant)
             trace, info = execute(case, 'A1', judge=(i % judge_every == 0))
             if trace is None:
                 continue
-            want = [('Arrive', '', -1) if e['e'] == 'D' else ('Cancel', '', -1) if e['e'] == 'C' else
-                    ('AppCall', e['op'], -1) if e['e'] == 'A' else ('AppRet', e['op'], e['r']) for e in b['h']]
+            wants = [tokens_of(b) for b in outcomes]
             got = [(e, op, (r if e == 'AppRet' else -1)) for e, op, r in info['tokens']]
-            if got != want:
+            if got not in wants:
+                want = wants[0]
                 k = next((j for j in range(min(len(got), len(want))) if got[j] != want[j]), min(len(got), len(want)))
-                ctx.violation('P:A1_results', {'case': case, 'spec_behaviour': b, 'trace': trace},
+                ctx.violation('P:A1_results', {'case': case, 'spec_behaviour': b0, 'trace': trace},
                               'application-visible history differs from the specification at step %d: spec %r, code %r'
                               % (k, want[k:k + 2], got[k:k + 2]),
                               signature={'clause': 'P:A1_results', 'buffered': case['mq'] > 0,
                                          'spec_step': list(want[k]) if k < len(want) else None})
                 continue
+            b = outcomes[wants.index(got)]
             if info['end']['waiting'] != b['waiting']:
                 ctx.violation('P:A1_waiting', {'case': case, 'spec_behaviour': b, 'trace': trace},
                               'at quiescence a receive is %swaiting in the code, the specification says %s'
@@ -399,15 +532,19 @@ def run(ctx):
             if spec_pulls != real_pulls or b['pulls'] != info['end']['pulls'] or \
                     b['outstanding'] != info['end']['outstanding'] or b['pumpAlive'] != (info['end']['stray'] > 0):
                 ctx.detail('D:A1_pulls', {'case': case, 'spec_behaviour': b},
-                           'pull accounting differs: spec %r/%r code %r/%r' % (spec_pulls, b['pulls'], real_pulls,
-                                                                               info['end']['pulls']))
+                           'pull accounting differs: spec %r/%r/%r/%r code %r/%r/%r/%r'
+                           % (spec_pulls, b['pulls'], b['outstanding'], b['pumpAlive'], real_pulls,
+                              info['end']['pulls'], info['end']['outstanding'], info['end']['stray']))
             consumed = sum(1 for e in b['h'] if e['e'] == 'R' and e['op'] == 'recv' and e['r'] >= 0)
             if b['mq'] > 0 and b['pulls'] - consumed > b['mq']:
                 held_more += 1
     ctx.traces_validated += counts['A1']
     ctx.extra['A1_behaviours'] = len(behaviours)
+    ctx.extra['A1_scripts'] = len(keys)
+    ctx.extra['A1_scripts_with_two_outcomes'] = sum(1 for v in scripts.values() if len(v) > 1)
     ctx.extra['A1_behaviours_with_capacity_plus_one_pulls'] = held_more
-    ctx.progress('leg A1: %d behaviours, %d replays compared' % (len(behaviours), counts['A1']))
+    ctx.progress('leg A1: %d behaviours / %d scripts, %d replays compared' % (len(behaviours), len(keys), counts['A1']))
+    del behaviours, scripts
 
     # ---- leg A2: simulated fine-grained behaviours -> racy stimulus scripts -------------------------
     rs = ctx.tlc('MC_WsBuffer', 'MC_WsBufferA2.cfg', simulate={'num': ctx.pick(500, 7000)}, depth=30,
@@ -426,8 +563,8 @@ def run(ctx):
 
     # ---- TLC judges every distinct boundary trace ---------------------------------------------------
     items = list(seen.values())
-    verdicts = ctx.judge('WsBufferTrace', [t for t, _ in items], workers=8, timeout=1500, chunk=12000)
-    for (trace, case), v in zip(items, verdicts):
+    verdicts = ctx.judge('WsBufferTrace', [t for t, _, _ in items], workers=8, timeout=1500, chunk=12000)
+    for (trace, case, raised), v in zip(items, verdicts):
         if v == 'ok':
             continue
         clause, _, at = v.partition('@')
@@ -439,11 +576,11 @@ def run(ctx):
         if clause.startswith('D:'):
             ctx.detail(clause, {'case': case, 'trace': trace}, what)
         else:
-            ctx.violation(clause, {'case': case, 'trace': trace}, what, signature=_signature(clause, case, trace, at))
+            ctx.violation(clause, {'case': case, 'trace': trace}, what, signature=_signature(clause, case, trace, at, raised))
     # ---- binding self-test: the judge must reject corrupted versions of accepted traces -------------
     import copy
     corrupted = []
-    for (trace, case), v in zip(items, verdicts):
+    for (trace, case, _), v in zip(items, verdicts):
         if v != 'ok' or len(corrupted) >= 60:
             continue
         idx = [i for i, e in enumerate(trace['ev']) if e['e'] == 'AppRet' and e['op'] == 'recv' and e['r'] >= 1]
@@ -484,5 +621,5 @@ def replay(ctx, case):
     if v != 'ok' and not v.startswith('D:'):
         clause, _, at = v.partition('@')
         ctx.violation(clause, {'case': c, 'trace': trace}, 'trace rejected at %s' % v,
-                      signature=_signature(clause, c, trace, int(at or -1)))
+                      signature=_signature(clause, c, trace, int(at or -1), info['raised']))
     stepper.close()
